@@ -74,11 +74,19 @@ func (fst *FSTree) buildFilePath(key string, checkKeyLength bool) (string, error
 	}
 	// build filepath
 	dstPath := filepath.Join(fst.basePath, key) // Join also calls Clean()
-	if !strings.HasPrefix(dstPath, fst.basePath) {
+	if !fst.contains(dstPath) || (checkKeyLength && dstPath == fst.basePath) {
 		return "", fmt.Errorf("fstree: key integrity check failed, compiled path is %s", dstPath)
 	}
 	// return
 	return dstPath, nil
+}
+
+// contains returns whether the given (cleaned) path is the base path or below it.
+func (fst *FSTree) contains(path string) bool {
+	if path == fst.basePath {
+		return true
+	}
+	return strings.HasPrefix(path, strings.TrimSuffix(fst.basePath, string(filepath.Separator))+string(filepath.Separator))
 }
 
 // Get returns a database record.
@@ -197,7 +205,7 @@ func (fst *FSTree) queryExecutor(walkRoot string, queryIter *iterator.Iterator, 
 
 		if info.IsDir() {
 			// skip dir if not in scope
-			if !strings.HasPrefix(path, fst.basePath) {
+			if !fst.contains(path) {
 				return filepath.SkipDir
 			}
 			// continue
@@ -205,7 +213,7 @@ func (fst *FSTree) queryExecutor(walkRoot string, queryIter *iterator.Iterator, 
 		}
 
 		// still in scope?
-		if !strings.HasPrefix(path, fst.basePath) {
+		if !fst.contains(path) {
 			return nil
 		}
 
